@@ -36,6 +36,35 @@ func execSigParse(a []string) string {
 	return fmt.Sprintf("ok sig=%s idl=%s go=%s", hx([]byte(t.Signature())), t.SignatureIDL(), goT)
 }
 
+// sig.reparse <hex A> <hex B>: both texts are parsed, their types are used the way the generators use them
+// (registered into one type set, where a struct whose name is taken is renamed), then both texts are parsed
+// again: what a text parses to does not depend on what was done with the result of an earlier parse
+func execSigReparse(a []string) string {
+	ta, err := signature.Parse(string(unhx(a[0])))
+	if err != nil {
+		return "err"
+	}
+	tb, err := signature.Parse(string(unhx(a[1])))
+	if err != nil {
+		return "err"
+	}
+	func() {
+		defer func() { recover() }()
+		set := signature.NewTypeSet()
+		ta.RegisterTo(set)
+		tb.RegisterTo(set)
+	}()
+	out := "ok"
+	for _, h := range a[:2] {
+		t, err := signature.Parse(string(unhx(h)))
+		if err != nil {
+			return out + " err"
+		}
+		out += fmt.Sprintf(" sig=%s idl=%s", hx([]byte(t.Signature())), t.SignatureIDL())
+	}
+	return out
+}
+
 // sigDeepText builds the text of sig.deep: <shape> nested <n> times
 //   list  [[[…i…]]]     map  {i{i{i…i…}}}     open  [[[[…  (nothing closes)     shut  ]]]]…[[[[…i…]]]]
 func sigDeepText(shape string, n int) string {
@@ -68,6 +97,7 @@ func childSigDeep(a []string) string {
 
 func init() {
 	executors["sig.parse"] = execSigParse
+	executors["sig.reparse"] = execSigReparse
 	children["sig.deep"] = childSigDeep
 	executors["sig.deep"] = func(a []string) string {
 		out := runChild("sig.deep", strings.Join(a, " "), 300*time.Second, 0)
@@ -243,6 +273,42 @@ func runC09(r *Rand, tier string, o *Out) {
 			}
 			res := o.Do("P", "sig.parse "+hx(b), true)
 			checkFixedPoint(o, string(b), res)
+		}
+	}
+	// two signatures that use one struct name for different members (or for the same), used and parsed again
+	pairs := 150
+	if tier == "thorough" {
+		pairs = 1500
+	}
+	for i := 0; i < pairs; i++ {
+		name := []string{"Point", "Item", "T", "Pair<K>"}[r.Intn(4)]
+		mk := func() *sigT {
+			n := 1 + r.Intn(3)
+			st := &sigT{kind: 'S', name: name}
+			for j := 0; j < n; j++ {
+				st.elems = append(st.elems, genSig(r, 1, "ifsbIlLd"))
+				st.members = append(st.members, []string{"x", "y", "id", "name", "key"}[(j+r.Intn(2))%5])
+			}
+			switch r.Intn(4) {
+			case 0:
+				return &sigT{kind: '[', elems: []*sigT{st}}
+			case 1:
+				return &sigT{kind: '{', elems: []*sigT{{kind: 's'}, st}}
+			case 2:
+				return &sigT{kind: '(', elems: []*sigT{{kind: 'i'}, st}}
+			}
+			return st
+		}
+		ta, tb := mk(), mk()
+		if r.Chance(20) {
+			tb = ta
+		}
+		sa, sb := ta.String(), tb.String()
+		res := o.Do("P", "sig.reparse "+hx([]byte(sa))+" "+hx([]byte(sb)), true)
+		o.Count("case:parsed-again-after-use")
+		want := "ok sig=" + hx([]byte(sa))
+		if res != "err" && !strings.HasPrefix(res, want+" ") {
+			o.Fail("a signature parsed again after its type was used does not print back", sa+" / "+sb+" => "+res)
 		}
 	}
 	// depth: at the bound the parser sets itself, around it, and far beyond (megabytes of brackets:
